@@ -253,7 +253,14 @@ func checkC15(job *Job, res *Result) {
 			} else if modifies[i] && !isRefusal(rep) && !strings.Contains(rep.String(), "ERR") && !strings.Contains(rep.String(), "not the leader") {
 				viol("follower-not-refused:"+lc+":"+it.Wrapper, "a data-modifying command was answered "+vclip(rep.String(), 100)+" instead of being refused", it, mode)
 			}
-			if !caught && c15ObjectReads[it.Cmd] && (it.Wrapper == "direct" || it.Wrapper == "timeout") {
+			// TEST reads stored objects when one of its two sides is GET key id
+			testOfStored := false
+			if it.Cmd == "TEST" {
+				for _, a := range it.Args[1:] {
+					testOfStored = testOfStored || strings.EqualFold(a, "GET")
+				}
+			}
+			if !caught && (c15ObjectReads[it.Cmd] || testOfStored) && (it.Wrapper == "direct" || it.Wrapper == "timeout") {
 				if !isRefusal(rep) {
 					viol("never-caught-up-follower-served-read:"+lc+":"+it.Wrapper, "a follower that never caught up answered "+vclip(rep.String(), 120), it, mode)
 				}
